@@ -16,6 +16,34 @@ from pv import flow
 from pv.guards import place_chain
 
 
+def whole_replace_helper(g, pi):
+    """If workspace function g does nothing to `*param pi` but overwrite it as a whole with another parameter (by value, or the
+    deref of a by-ref parameter through the library write forms), on every path to its return, return that parameter's index."""
+    writes = []
+    for bi, si, s in g.statements():
+        if s[0] == "a" and not isinstance(s[1], int) and pl_local(s[1]) == pi:
+            if s[2]["k"] == "use" and [e[0] for e in pl_proj(s[1])] == ["deref"]:
+                writes.append((bi, g.sym_operand(s[2]["x"])))
+            else:
+                return None
+        if s[0] == "a" and s[2]["k"] in ("ref", "rawptr") and s[2].get("mut") and pl_local(s[2]["p"]) == pi:
+            return None
+    for bi, t in g.calls():
+        for a in t["args"]:
+            ch = flow.origin_chain(g.sym_operand(a))
+            if ch is not None and ch[0] == ("param", pi):
+                return None           # lent further: not a plain replacement
+    if len(writes) != 1:
+        return None
+    bi, src = writes[0]
+    ch = flow.origin_chain(src)
+    if ch is None or ch[0][0] != "param" or ch[1] or ch[0][1] == pi:
+        return None
+    if not all(flow.dominates(g, bi, r) for r in g.return_blocks()):
+        return None
+    return ch[0][1]
+
+
 def run(tier):
     res = Result("C39", tier, level="proof")
     P = Program(crates=["pallas_validate"])
@@ -105,6 +133,22 @@ def run(tier):
     WRITE_FORMS = re.compile(r"::clone_from$|^core::mem::swap$|^core::mem::replace$|^std::mem::swap$|^std::mem::replace$")
     form_lent = [(bi, t, n) for bi, t, n in lent if WRITE_FORMS.search(n)]
     lent = [x for x in lent if not WRITE_FORMS.search(x[2])]
+    # a workspace helper whose whole effect is `*state = value` (extracted write-back, e.g. `CertState::commit`): equivalent to
+    # the assignment; the helper's body is inspected, so a helper that merges/extends instead of replacing stays "lent"
+    still = []
+    for bi, t, n in lent:
+        g = P.get(t.get("f") or "")
+        src_i = None
+        if g is not None:
+            pis = [i for i, a in enumerate(t["args"]) if (flow.origin_chain(f.sym_operand(a)) or (None,))[0] == ("param", cparam)]
+            if len(pis) == 1:
+                src_i = whole_replace_helper(g, pis[0] + 1)
+        if src_i is not None and src_i - 1 < len(t["args"]):
+            t2 = dict(t, args=[t["args"][pis[0]], t["args"][src_i - 1]])
+            form_lent.append((bi, t2, n))
+        else:
+            still.append((bi, t, n))
+    lent = still
     if lent:
         res.violation("lent:" + "|".join(sorted({n.split("::")[-1] for _, _, n in lent})),
                       "the caller's `&mut CertState` is passed to %s: a callee can modify it before the sequence is known to be valid" % sorted({n for _, _, n in lent}),
